@@ -268,15 +268,23 @@ def _run(ix, R):
     with R.guard('3.mu', 'ALG', site, 'mu'):
         f = ix.func(site)
         fl = mkflow(ix, site)
-        st = [e for e in fl.of('store') if e.loops and e.op == 'Add']
+        st = [e for e in fl.of('store') if e.loops and e.op == 'Add'] + [e for e in fl.of('aug') if e.loops]
         s = one(st, 'mu accumulation')
         lp = s.loops[0]
         ok = lp.kind == 'enumerate' and fl.tab.equal(lp.iter_rf[0], code(fl, 'self.gases'))
         gasname = fl.tab.atom('elem', (lp.iter_rf[0], lp.index))
         want = spec(fl, 'self.mixProfile[i]*self.get_molecular_mass(g)', {'i': lp.index, 'g': gasname})
-        ok = ok and fl.tab.equal(s.value, want) and fmt(fl, s.target) == 'self.mu_profile'
+        ok = ok and fl.tab.equal(s.value, want) and getattr(s, 'op', 'Add') == 'Add'
         z = [e for e in fl.of('store') if not e.loops and fmt(fl, e.target) == 'self.mu_profile']
-        ok = ok and len(z) == 1 and 'zeros' in fmt(fl, z[0].value)
+        if s.kind == 'aug':
+            # the sum is built in a local array: that array starts from zeros and is what the attribute is bound to
+            init = [v for n_, v in fl.assign_log.get(s.name, []) if isinstance(n_, ast.Assign)]
+            if len(init) != 1 or not z or not all(isinstance(e.node.value, ast.Name) and e.node.value.id == s.name for e in z):
+                raise AnalysisError('the array the sum is built in (%s) is not recognised as the one stored in self.mu_profile' % s.name)
+            ia = atom_of(fl, init[0])
+            ok = ok and ia is not None and ia.head == 'alloc' and 'zeros' in fmt(fl, init[0])
+        else:
+            ok = ok and fmt(fl, s.target) == 'self.mu_profile' and len(z) == 1 and 'zeros' in fmt(fl, z[0].value)
         R.check('3.mu', 'ALG', site,
                 'mu = sum_idx mix[idx] * mass(gases[idx]) with one idx from enumerate(self.gases), starting from zeros',
                 ok, key='adds %s' % fmt(fl, s.value), detail='adds %s over %s' % (fmt(fl, s.value), unparse(lp.iter_ast)),
@@ -338,11 +346,19 @@ def _run(ix, R):
         with R.guard('4.mix', 'ARG', site, 'masked mix'):
             f = ix.func(site)
             fl = mkflow(ix, site)
-            r = [e for e in fl.of('return') if fmt(fl, e.value) != "None"]
-            r = one(r, 'return')
+            # scenario: a mix profile has been computed and there is a mask; what is returned then
+            from sa.helpers import resolve_guards, has_guard
+            r = the_return(fl)
+            nones = [spec(fl, 'self.mixProfile is None'), spec(fl, 'self.%s is None' % mask)]
+
+            def decide(c):
+                return False if any(fl.tab.equal(c, n_) for n_ in nones) else None
+            val = resolve_guards(fl, r.value, decide)
+            if has_guard(val):
+                raise AnalysisError('the value returned when a profile and a mask exist is not settled: %s' % fmt(fl, val))
             R.check('4.mix', 'ARG', site, '%s = mixProfile[%s]' % (nm, mask),
-                    fl.tab.equal(r.value, spec(fl, 'self.mixProfile[self.%s]' % mask)),
-                    key=fmt(fl, r.value), detail=fmt(fl, r.value), loc=f.loc(r.node))
+                    fl.tab.equal(val, spec(fl, 'self.mixProfile[self.%s]' % mask)),
+                    key=fmt(fl, val), detail=fmt(fl, val), loc=f.loc(r.node))
     site = CH + 'chemistry.py::Chemistry.__init__'
     with R.guard('4.avail', 'DOM', site, 'available active'):
         f = ix.func(site)
